@@ -176,3 +176,55 @@ Proof.
     vm_compute; reflexivity.
     vm_compute; reflexivity.
 Qed.
+
+(* ---- constants generated from the source (harness/gen.go writes Gen/Consts.v from
+   subscription.go before every check run; these are re-proved then) ---- *)
+From Coq Require Import NArith.
+From GQL Require Gen.Consts.
+
+(* C15_no_stuck_goroutine and C15_closes for the code as it is: the one-shot channel of
+   sendOneResultAndClose has the capacity found in the source, and `every send selects on
+   ctx.Done()` is the fact that ExecuteSubscription has no send statement on its result channel
+   outside a select with a Done() case. *)
+Theorem C15_gen_no_stuck_goroutine : forall ev res (exec : ev -> res),
+  let sel := fun _ : site => (Gen.Consts.subscription_result_sends_unguarded =? 0)%N in
+  let cap := N.to_nat Gen.Consts.subscription_oneshot_chan_cap in
+  forall f su es s, reach ev res exec sel cap (init ev res f su es) s -> cancelled s = true ->
+  exists ls s', run ev res exec sel cap s ls s' /\ Forall (fun l => lib l = true) ls /\
+    fwd_done ev res s' = true /\ rclosed s' = true.
+Proof.
+  intros ev res exec sel cap. apply C15_no_stuck_goroutine.
+  - intros k.
+    first [ vm_compute; reflexivity
+          | fail 1 "generated-table obligation C15_gen_no_stuck_goroutine no longer holds against the regenerated table: ExecuteSubscription of subscription.go has a send on its result channel outside a select with a Done() case (Gen/Consts.v)" ].
+  - apply Nat.leb_le.
+    first [ vm_compute; reflexivity
+          | fail 1 "generated-table obligation C15_gen_no_stuck_goroutine no longer holds against the regenerated table: the channel of sendOneResultAndClose in subscription.go has no buffer (Gen/Consts.v)" ].
+Qed.
+Print Assumptions C15_gen_no_stuck_goroutine.
+
+Theorem C15_gen_closes : forall ev res (exec : ev -> res) sel,
+  let cap := N.to_nat Gen.Consts.subscription_oneshot_chan_cap in
+  forall f su es s, reach ev res exec sel cap (init ev res f su es) s ->
+  sclosed s = true -> stopped s = false ->
+  exists ls s', run ev res exec sel cap s ls s' /\ Forall (fun l => lib_or_deliver l = true) ls /\
+    fwd_done ev res s' = true /\ rclosed s' = true.
+Proof.
+  intros ev res exec sel cap. apply C15_closes. apply Nat.leb_le.
+  first [ vm_compute; reflexivity
+        | fail 1 "generated-table obligation C15_gen_closes no longer holds against the regenerated table: the channel of sendOneResultAndClose in subscription.go has no buffer (Gen/Consts.v)" ].
+Qed.
+Print Assumptions C15_gen_closes.
+
+(* the forwarder's own result channel is a rendezvous (the model's delivery step), and it has
+   sends to guard *)
+Theorem C15_gen_result_channel :
+  Gen.Consts.subscription_result_send_chan_caps = [0%N] /\
+  (0 < Gen.Consts.subscription_result_sends_guarded)%N /\
+  Gen.Consts.subscription_oneshot_send_chan_caps = [Gen.Consts.subscription_oneshot_chan_cap].
+Proof.
+  repeat split;
+  first [ vm_compute; reflexivity
+        | fail 1 "generated-table obligation C15_gen_result_channel no longer holds against the regenerated table: the channels of ExecuteSubscription / sendOneResultAndClose in subscription.go (Gen/Consts.v) are not one rendezvous channel with guarded sends and one one-shot channel" ].
+Qed.
+Print Assumptions C15_gen_result_channel.
